@@ -395,6 +395,34 @@ var c13extra = []string{
 	"SELECT time, time AS t, time FROM m", "SELECT x FROM m ORDER BY DESC LIMIT 0 SLIMIT 0", "SELECT x FROM m WHERE time > now() - 1h GROUP BY time(10m, now())",
 }
 
+// c13families: literal values in every operator slot, and strings that almost are timestamps.
+//   - every arithmetic / bitwise / comparison operator between every pair of operand kinds, zero divisors included
+//     (integer, integer above MaxInt64 = unsigned, float, duration, string, boolean, typed and untyped references);
+//   - every prefix of two timestamp spellings as a string compared with time, with another string, and with a tag.
+func c13families() []string {
+	var out []string
+	opnds := []string{"0", "2", "-1", "18446744073709551615", "9223372036854775808", "0.0", "1.5", "0s", "1h", "'s'", "true", "x", "x::integer", "x::unsigned", "x::float", "u::unsigned", "now()", "'2000-01-01T00:00:00Z'"}
+	ops := []string{"+", "-", "*", "/", "%", "&", "|", "^", "=", "!=", "<", ">="}
+	for _, o := range ops {
+		for _, l := range opnds {
+			for _, r := range opnds {
+				out = append(out, "SELECT "+l+" "+o+" "+r+" FROM m")
+				if o == "/" || o == "%" || o == "=" || o == "<" {
+					out = append(out, "SELECT x FROM m WHERE "+l+" "+o+" "+r)
+				}
+			}
+		}
+	}
+	for _, full := range []string{"2019-12-03T01:02:03.123456789Z", "2019-12-03 01:02:03.5", "2019-12-3", "2019-1-03 1:2:3"} {
+		for n := 0; n <= len(full); n++ {
+			s := "'" + full[:n] + "'"
+			out = append(out, "SELECT x FROM m WHERE time >= "+s, "SELECT x FROM m WHERE "+s+" < time AND a = "+s,
+				"SELECT x FROM m WHERE "+s+" = '2019-12-03'", "SELECT x FROM m WHERE '2019-12-03T00:00:00Z' != "+s, "SELECT x FROM m WHERE "+s+" + 1h > now()")
+		}
+	}
+	return out
+}
+
 type c13oddCase struct {
 	Text string `json:"text"`
 }
@@ -464,6 +492,7 @@ func c13run(r *ev.Run) {
 		}
 	}
 	texts = append(texts, c13extra...)
+	texts = append(texts, c13families()...)
 	var accepted, ops int64
 	var mu = make([]int64, 2)
 	_ = mu
@@ -486,5 +515,5 @@ func c13run(r *ev.Run) {
 	r.Set("odd_shape_texts_generated", len(texts))
 	r.Set("operations_per_statement", len(c13stmtOps))
 	r.Set("operations_per_select", len(c13selOps))
-	r.Rule = fmt.Sprintf("statements = grammar-model corpus within the bound + odd shapes (16 function names x every argument list of <=%d from 15 arguments x 5 positions, and %d hand-picked shapes: zero/negative intervals, fractional divisors, regex operators next to arithmetic, wildcards in odd places); on every accepted statement each of %d statement-level and, for every SELECT inside it, %d select-level operations is run on a freshly parsed copy with panics recovered. non-trivial = accepted by the parser", maxArgs, len(c13extra), len(c13stmtOps), len(c13selOps))
+	r.Rule = fmt.Sprintf("statements = grammar-model corpus within the bound + odd shapes (16 function names x every argument list of <=%d from 15 arguments x 5 positions, and %d hand-picked shapes: zero/negative intervals, fractional divisors, regex operators next to arithmetic, wildcards in odd places; plus every operator between every pair of 18 operand kinds and every prefix of four timestamp spellings as a string in five comparison contexts); on every accepted statement each of %d statement-level and, for every SELECT inside it, %d select-level operations is run on a freshly parsed copy with panics recovered. non-trivial = accepted by the parser", maxArgs, len(c13extra), len(c13stmtOps), len(c13selOps))
 }
